@@ -96,6 +96,9 @@ func c05RealName(short string) string {
 	if r, ok := c05OddNames[short]; ok {
 		return r
 	}
+	if strings.HasPrefix(short, "K") {
+		return c05BucketName(short)
+	}
 	n := 0
 	switch {
 	case strings.HasPrefix(short, "L"):
@@ -111,7 +114,30 @@ func c05RealName(short string) string {
 	return short
 }
 
+// c05BucketName gives K-names: 3900 bytes long, and all in hash bucket 77 (a
+// counter appended to the short name is searched for).
+var c05BucketNames = map[string]string{}
+
+func c05BucketName(short string) string {
+	if r, ok := c05BucketNames[short]; ok {
+		return r
+	}
+	for i := 0; ; i++ {
+		h := fmt.Sprintf("%s#%d#", short, i)
+		r := h + strings.Repeat("_", 3900-len(h))
+		if rt.V1Hash(r) == 77 {
+			c05BucketNames[short] = r
+			return r
+		}
+	}
+}
+
+var c05Pause bool // a foreign process is at work: no faults, no recording
+
 func c05Fault(kind, path string) error {
+	if c05Pause {
+		return nil
+	}
 	if w := c05w; w != nil && w.h != nil {
 		return w.h.Fault(kind, path)
 	}
@@ -361,6 +387,25 @@ func c05RunFaultCase(t *testing.T, scn *c05Scn, plan *c05h.Plan, budget int, rec
 					rec["rv"] = v
 				}
 			}
+		case "foreign":
+			// another process on the same file (a second file value with the same
+			// build info), fault-free and outside the recording
+			c05Pause = true
+			c05h.Uninstall()
+			func() {
+				defer func() { recover() }()
+				b := new(file)
+				b.buildInfo = c05BuildInfo()
+				b.rotate1()
+				for k := 0; k < int(st.N); k++ {
+					(&Counter{name: c05RealName(fmt.Sprintf("Kf%d", k)), file: b}).Add(int64(k) + 1)
+				}
+				if m := b.current.Raw(); m != nil {
+					m.close()
+				}
+			}()
+			w.h.Install()
+			c05Pause = false
 		case "rmfile":
 			removed = c05CountName(w.now)
 			os.Remove(filepath.Join(w.dir, "local", removed))
